@@ -167,9 +167,12 @@ class Sym:
         self.bounds: dict[str, Any] = {}
 
     def int(self, name: str, lo: int, hi: int):
+        # the z3 constant carries the logical name itself (no per-path counter), so that the same input is the
+        # same constant in every path condition -- needed by the coverage certificate
+        assert name not in self.vars, "duplicate input name " + name
         with NoTracing():
             space = context_statespace()
-            v = SymbolicInt(name + space.uniq())
+            v = SymbolicInt("in_" + name)
             space.add(v.var >= lo)
             space.add(v.var <= hi)
         self.vars[name] = v
@@ -177,9 +180,10 @@ class Sym:
         return v
 
     def bool(self, name: str):
+        assert name not in self.vars, "duplicate input name " + name
         with NoTracing():
             space = context_statespace()
-            v = SymbolicBool(name + space.uniq())
+            v = SymbolicBool("in_" + name)
         self.vars[name] = v
         self.bounds[name] = "bool"
         return v
@@ -462,8 +466,7 @@ def explore(
                         and (len(samples) < n_samples or rng.random() < 0.002)
                     )
                     decisions += len(space.choices_made)
-                    if not bounds:
-                        bounds = dict(sym.bounds)
+                    bounds.update(sym.bounds)
                     if want_model:
                         with ResumedTracing():
                             space.detach_path()
@@ -595,14 +598,11 @@ def certify_cover(pcs: list, declared: set[str], bounds: dict) -> dict:
         out["status"] = "skipped: path conditions mention fresh symbols"
         out["fresh"] = sorted(extra)[:5]
         return out
-    # restate the bounds of the declared integer inputs (names carry a uniq suffix: <name>_<n>)
+    # restate the bounds of the declared integer inputs (z3 constant "in_<name>")
     bnd = []
     for nm, c in consts.items():
-        base = None
-        for b_ in bounds:
-            if (nm == b_ or nm.startswith(b_ + "_")) and (base is None or len(b_) > len(base)):
-                base = b_
-        if base is not None and isinstance(bounds[base], list) and z3.is_int(c):
+        base = nm[3:] if nm.startswith("in_") else None
+        if base in bounds and isinstance(bounds[base], list) and z3.is_int(c):
             lo, hi = bounds[base]
             bnd += [c >= lo, c <= hi]
     t = time.perf_counter()
